@@ -10,8 +10,8 @@ def dispatch(args):
         from .driver import dispatch_runtime
         return dispatch_runtime(args)
     if args.prop in HISTORY_PROPS:
-        from .hdriver import dispatch_history
-        return dispatch_history(args)
+        from .driver import dispatch_runtime
+        return dispatch_runtime(args)
     print("no check for property {} (see MANIFEST.json not_applicable)"
           .format(args.prop))
     return 2
